@@ -400,7 +400,7 @@ func replay(w *World, vc *FuncVC, o *Obligation, m map[string]rawVal, scratch st
 		resNames = append(resNames, fmt.Sprintf("r%d", i))
 	}
 	var src bytes.Buffer
-	fmt.Fprintf(&src, "//go:build verif\n\npackage %s\n\nimport (\n\t\"fmt\"\n\t\"testing\"\n", pkg.Name())
+	fmt.Fprintf(&src, "//go:build verif\n\npackage %s\n\nimport (\n\t\"fmt\"\n\tvcos \"os\"\n\t\"testing\"\n", pkg.Name())
 	// imports needed by literals: scan for "name." patterns of the package's imports
 	body := strings.Join(decl, "\n")
 	for _, imp := range pkg.Imports() {
@@ -408,7 +408,9 @@ func replay(w *World, vc *FuncVC, o *Obligation, m map[string]rawVal, scratch st
 			fmt.Fprintf(&src, "\t%s %q\n", imp.Name(), imp.Path())
 		}
 	}
-	fmt.Fprintf(&src, ")\n\nfunc TestVerifReplay(t *testing.T) {\n%s\n", body)
+	// the replay runs in a scratch directory of its own: code under replay that creates files named by
+	// its inputs must not litter the package directory of the tree under test
+	fmt.Fprintf(&src, ")\n\nfunc TestVerifReplay(t *testing.T) {\n\tif wd, err := vcos.Getwd(); err == nil {\n\t\tdefer vcos.Chdir(wd)\n\t}\n\tvcos.Chdir(t.TempDir())\n%s\n", body)
 	for _, cl := range c.byKind("requires") {
 		fmt.Fprintf(&src, "\tif !%s(%s) { fmt.Println(\"REPLAY-INPUT-OUTSIDE-PRECONDITION %s\"); return }\n", cl.Pred, strings.Join(argNames, ", "), cl.Label)
 	}
